@@ -213,6 +213,15 @@ func checkC01(c *Ctx) {
 	c.include("lifecycle", "C12", rulesIn("C12.authorised", "C12.once", "C12.recipient", "C12.expiry"))
 	c.include("lifecycle", "C13", rulesIn("C13."))
 	c.include("identity", "C14", rulesIn("C14.coverage", "C14.injective"))
+	// the event cursors survive a restart for every chain: a chain that restarts at nonce 0 replays (and mints) its history
+	c.includeKeys("lifecycle", "C15", rulesIn("C15.faithful-import", "C15.field-roundtrip", "C15.prefix-export", "C15.export-own-state"), func(rule, key string) bool {
+		for _, k := range []string{"LastObservedEventNonce", "LastEventNonceByValidatorKey", "Nonces", "every-chain", "loopvar", "in-place"} {
+			if strings.Contains(key, k) {
+				return true
+			}
+		}
+		return false
+	})
 	c.include("amounts", "C11", rulesIn("C11.convert-truncates", "C11.debit-identity", "C11.commission-form"))
 	c.include("amounts", "C19", rulesIn("C19.clamp", "C19.remainder", "C19.prorata"))
 
